@@ -777,6 +777,18 @@ func (w *runner[T]) run() error {
 			return err
 		}
 	}
+	// a heap merged with ITSELF: receiver and argument coincide; the result holds every element of "both", i.e. twice,
+	// and the heap itself stays as it is
+	if len(cur.held) <= 64 {
+		twice := cur.h.Merge(cur.h)
+		both := append(append([]T(nil), cur.held...), cur.held...)
+		if got := twice.GetValues(); !w.sameMultiset(got, both) {
+			return fmt.Errorf("%s: %s.Merge(itself).GetValues() = %v, want the multiset %v (the elements of both operands)", w.where(), cur.label(), got, both)
+		}
+		if err := w.observe(cur); err != nil {
+			return err
+		}
+	}
 	if err := w.drain(cur); err != nil {
 		return err
 	}
